@@ -84,8 +84,11 @@ def run(rep, tier, seed, model_ok=True, effort=1):
         from_cli = r.random() < 0.5
         cmsg = gen_value(r, allow_braces=True)
         tmsg = gen_value(r, allow_braces=True)
-        if from_cli and r.random() < 0.5:
+        if r.random() < 0.5:
+            # the OLD/NEW shorthand is for command line templates only; in configured templates the words stay as they are
             cmsg += r.choice([" OLD -> NEW", " NEW", " (OLD)", " NEWER OLDEST NEW_x"])
+            if r.random() < 0.5:
+                tmsg += r.choice([" NEW RELEASE", " replaces OLD"])
         fname = r.choice(["a.txt", "a b.txt", "it's.txt", "d$x.txt", "-dash.txt", 'q"uote.txt', "ünï.txt", "back\\slash.txt", "semi;colon.txt"])
         strip = lambda s: s.strip("'\" ")
         cfg_c, cfg_t = (None, None) if from_cli else (cmsg, tmsg)
